@@ -106,7 +106,7 @@ impl Model for AccModel {
         let got: Option<Vec<u8>> = n.acc.push_byte(*e).map(|s| s.as_bytes().to_vec());
         let before = canon_acc(&s.acc);
         judge_char(self.prop, got.as_deref(), want, &|| format!("byte {:02X} in state {:02X?}", e, before), stats, &mut v);
-        StepOut { next: if v.is_empty() { Some(n) } else { None }, viols: v }
+        StepOut::new(if v.is_empty() { Some(n) } else { None }, v)
     }
 }
 
@@ -205,7 +205,7 @@ impl Model for DecByteModel {
                 stats.hit("lenient_accepts");
             }
         }
-        StepOut { next: if v.is_empty() { Some(n) } else { None }, viols: v }
+        StepOut::new(if v.is_empty() { Some(n) } else { None }, v)
     }
 }
 
@@ -354,7 +354,7 @@ impl Model for DecUnitModel {
     fn step(&self, s: &UnitSt, e: &Unit, stats: &mut Stats) -> StepOut<UnitSt> {
         // a lone ESC followed by `[` *is* a CSI introducer: that byte string is covered by the Csi units
         if s.last_lone_esc && *e == Unit::Char('[') {
-            return StepOut { next: None, viols: vec![] };
+            return StepOut::new(None, vec![]);
         }
         let mut n = s.clone();
         let mut outs: Vec<(usize, Out)> = vec![];
@@ -427,6 +427,6 @@ impl Model for DecUnitModel {
                 format!("unit {:?}: outputs at byte offsets {:?}", e, outs),
             ));
         }
-        StepOut { next: if v.is_empty() { Some(n) } else { None }, viols: v }
+        StepOut::new(if v.is_empty() { Some(n) } else { None }, v)
     }
 }
